@@ -444,3 +444,8 @@ v('prefix-C15-exact-panics', ['C15'], LR, """                // the product may 
 import variants_helpers
 for _d in variants_helpers.L:
     V.append(dict(_d))
+
+SREF = 'src/smt_regular_expressions.rs'
+v('prefix-C01-lazy-iterator-under-borrow', ['C01'], SREF, """    // evaluate the iterator before borrowing the manager: it may call other wrappers
+    let a: Vec<RegLan> = a.into_iter().collect();
+    MANAGER.with(|m| m.borrow_mut().union_list(a))""", "    MANAGER.with(|m| m.borrow_mut().union_list(a))", 'C01.R5/wrapper:re_union_list/no-caller-code-runs')
